@@ -63,3 +63,23 @@ USE_ELEM(ElemTC, uint8_t)
   template void use_int_emplace<amc::Vector<E, EmptyAlloc, S, ExceptionGrowingPolicy, 4> >(amc::Vector<E, EmptyAlloc, S, ExceptionGrowingPolicy, 4> &);
 USE_INT(ElemNR, uint8_t)
 USE_INT(ElemTR, uint8_t)
+
+// swap2 between flavours and size types
+template <class A, class B>
+void use_swap2(A &a, B &b) { a.swap2(b); }
+#define SW(E, S1, S2) \
+  template void use_swap2(amc::Vector<E, amc::allocator<E>, S1, DynamicGrowingPolicy, 4> &, amc::Vector<E, amc::allocator<E>, S2, DynamicGrowingPolicy, 4> &); \
+  template void use_swap2(amc::Vector<E, amc::allocator<E>, S1, DynamicGrowingPolicy, 4> &, amc::Vector<E, amc::allocator<E>, S2, DynamicGrowingPolicy, 0> &); \
+  template void use_swap2(amc::Vector<E, amc::allocator<E>, S1, DynamicGrowingPolicy, 4> &, amc::Vector<E, EmptyAlloc, S2, ExceptionGrowingPolicy, 4> &); \
+  template void use_swap2(amc::Vector<E, amc::allocator<E>, S1, DynamicGrowingPolicy, 0> &, amc::Vector<E, amc::allocator<E>, S2, DynamicGrowingPolicy, 4> &); \
+  template void use_swap2(amc::Vector<E, amc::allocator<E>, S1, DynamicGrowingPolicy, 0> &, amc::Vector<E, amc::allocator<E>, S2, DynamicGrowingPolicy, 0> &); \
+  template void use_swap2(amc::Vector<E, amc::allocator<E>, S1, DynamicGrowingPolicy, 0> &, amc::Vector<E, EmptyAlloc, S2, ExceptionGrowingPolicy, 4> &); \
+  template void use_swap2(amc::Vector<E, EmptyAlloc, S1, ExceptionGrowingPolicy, 4> &, amc::Vector<E, amc::allocator<E>, S2, DynamicGrowingPolicy, 4> &); \
+  template void use_swap2(amc::Vector<E, EmptyAlloc, S1, ExceptionGrowingPolicy, 4> &, amc::Vector<E, amc::allocator<E>, S2, DynamicGrowingPolicy, 0> &); \
+  template void use_swap2(amc::Vector<E, EmptyAlloc, S1, ExceptionGrowingPolicy, 4> &, amc::Vector<E, EmptyAlloc, S2, ExceptionGrowingPolicy, 4> &);
+INST_ELEM(ElemNR, uint16_t)
+INST_ELEM(ElemTR, uint16_t)
+SW(ElemNR, uint8_t, uint8_t)
+SW(ElemTR, uint8_t, uint8_t)
+SW(ElemNR, uint8_t, uint16_t)
+SW(ElemNR, uint16_t, uint8_t)
